@@ -51,58 +51,60 @@ type Step struct {
 }
 
 type SessSpec struct {
-	NumVB      int                   `json:"num_vb"`
-	Nodes      int                   `json:"nodes,omitempty"`
-	Backend    string                `json:"backend"` // mem cb file
-	Auto       bool                  `json:"auto,omitempty"`
-	IntervalMs int                   `json:"interval_ms,omitempty"`
-	SkipUntil  int64                 `json:"skip_until,omitempty"` // unix seconds, 0 = none
-	Colls      map[string]uint32     `json:"colls,omitempty"`      // collections existing on the server: name -> id
-	CollNames  []string              `json:"coll_names,omitempty"` // configured collectionNames
-	Backlog    map[int][][]ItemSpec  `json:"backlog,omitempty"`    // per vBucket: snapshots present before start
-	PreStore   map[int][4]uint64     `json:"prestore,omitempty"`   // vb -> uuid, seq, snapStart, snapEnd
-	AckSeed    int64                 `json:"ack_seed"`
-	PNow       float64               `json:"p_now"`   // probability to ack inside the listener
-	PDefer     float64               `json:"p_defer"` // probability to defer (rest: never)
-	PCommitIn  float64               `json:"p_commit_in,omitempty"` // probability to call Commit inside the listener after an immediate ack
+	NumVB      int                  `json:"num_vb"`
+	Nodes      int                  `json:"nodes,omitempty"`
+	Backend    string               `json:"backend"` // mem cb file
+	Auto       bool                 `json:"auto,omitempty"`
+	IntervalMs int                  `json:"interval_ms,omitempty"`
+	SkipUntil  int64                `json:"skip_until,omitempty"` // unix seconds, 0 = none
+	Colls      map[string]uint32    `json:"colls,omitempty"`      // collections existing on the server: name -> id
+	CollNames  []string             `json:"coll_names,omitempty"` // configured collectionNames
+	Backlog    map[int][][]ItemSpec `json:"backlog,omitempty"`    // per vBucket: snapshots present before start
+	PreStore   map[int][4]uint64    `json:"prestore,omitempty"`   // vb -> uuid, seq, snapStart, snapEnd
+	AckSeed    int64                `json:"ack_seed"`
+	PNow       float64              `json:"p_now"`                 // probability to ack inside the listener
+	PDefer     float64              `json:"p_defer"`               // probability to defer (rest: never)
+	PCommitIn  float64              `json:"p_commit_in,omitempty"` // probability to call Commit inside the listener after an immediate ack
 	// CommitUnacked: the in-listener Commit is also called on events whose acknowledgement is deferred or withheld
-	CommitUnacked bool `json:"commit_unacked,omitempty"`
-	Steps      []Step                `json:"steps"`
-	FailSaves  []int                 `json:"fail_saves,omitempty"` // 1-based indices of mem-backend saves that are rejected
-	SlowSaveMs int                   `json:"slow_save_ms,omitempty"`
-	Fragment   bool                  `json:"fragment,omitempty"`
-	SlowConsUs int                   `json:"slow_cons_us,omitempty"`
-	AutoReset  string                `json:"auto_reset,omitempty"`
-	Mode       string                `json:"mode,omitempty"`
-	ReadOnly   bool                  `json:"read_only,omitempty"`
-	API        bool                  `json:"api,omitempty"`
-	NoFinalClose bool                `json:"no_final_close,omitempty"`
-	GroupName  string                `json:"group,omitempty"`
-	Rollbacks  map[int]uint64        `json:"rollbacks,omitempty"` // vb -> R: the first stream request of vb is answered ROLLBACK(R)
-	RollbackAt map[int]int           `json:"rollback_at,omitempty"` // vb -> which request (1-based) gets the ROLLBACK answer (default 1)
-	ReqFail    map[int][2]int        `json:"req_fail,omitempty"`    // vb -> (request index, status): that stream request is answered with an error status
-	ReqHold    map[int]int           `json:"req_hold,omitempty"`    // vb -> request index whose reply is held until a "releasereq" step
-	Failover   map[int][][2]uint64   `json:"failover,omitempty"`  // vb -> failover log (uuid, seq), newest first
-	CBFaults   []CBFault             `json:"cb_faults,omitempty"` // faults on checkpoint xattr writes (couchbase back end)
-	Membership string                `json:"membership,omitempty"` // "" static 1/1 | dynamic (fed through PUT /membership/info)
-	FirstInfo  [2]int                `json:"first_info,omitempty"` // member,total sent while starting (dynamic)
-	RebalanceDelayMs int             `json:"rebalance_delay_ms,omitempty"`
+	CommitUnacked bool   `json:"commit_unacked,omitempty"`
+	Steps         []Step `json:"steps"`
+	// StartSteps run concurrently with Start(), before the client signalled readiness (ops: waithold, end, waitreopen, releasereq, sleep)
+	StartSteps       []Step              `json:"start_steps,omitempty"`
+	FailSaves        []int               `json:"fail_saves,omitempty"` // 1-based indices of mem-backend saves that are rejected
+	SlowSaveMs       int                 `json:"slow_save_ms,omitempty"`
+	Fragment         bool                `json:"fragment,omitempty"`
+	SlowConsUs       int                 `json:"slow_cons_us,omitempty"`
+	AutoReset        string              `json:"auto_reset,omitempty"`
+	Mode             string              `json:"mode,omitempty"`
+	ReadOnly         bool                `json:"read_only,omitempty"`
+	API              bool                `json:"api,omitempty"`
+	NoFinalClose     bool                `json:"no_final_close,omitempty"`
+	GroupName        string              `json:"group,omitempty"`
+	Rollbacks        map[int]uint64      `json:"rollbacks,omitempty"`   // vb -> R: the first stream request of vb is answered ROLLBACK(R)
+	RollbackAt       map[int]int         `json:"rollback_at,omitempty"` // vb -> which request (1-based) gets the ROLLBACK answer (default 1)
+	ReqFail          map[int][2]int      `json:"req_fail,omitempty"`    // vb -> (request index, status): that stream request is answered with an error status
+	ReqHold          map[int]int         `json:"req_hold,omitempty"`    // vb -> request index whose reply is held until a "releasereq" step
+	Failover         map[int][][2]uint64 `json:"failover,omitempty"`    // vb -> failover log (uuid, seq), newest first
+	CBFaults         []CBFault           `json:"cb_faults,omitempty"`   // faults on checkpoint xattr writes (couchbase back end)
+	Membership       string              `json:"membership,omitempty"`  // "" static 1/1 | dynamic (fed through PUT /membership/info)
+	FirstInfo        [2]int              `json:"first_info,omitempty"`  // member,total sent while starting (dynamic)
+	RebalanceDelayMs int                 `json:"rebalance_delay_ms,omitempty"`
 	// LogDelayMs: the goroutine writing a library log line that contains the key is held up for that many ms
 	// (a slow log sink / a pre-emption at that point of the library's execution)
 	LogDelayMs map[string]int `json:"log_delay_ms,omitempty"`
 	// HookDelayMs: injected delays at the library's verif hook points (point name -> ms), e.g. "wait.signal"
-	HookDelayMs map[string]int `json:"hook_delay_ms,omitempty"`
-	RollbackMitigation bool          `json:"rollback_mitigation,omitempty"`
-	HealthCheck bool                 `json:"health_check,omitempty"`
-	HCTimeoutMs int                  `json:"hc_timeout_ms,omitempty"`
-	Replicas   int                   `json:"replicas,omitempty"`
-	UnassignedReplicas map[int][]int `json:"unassigned_replicas,omitempty"` // vb -> replica indexes that are -1 in the cluster map
-	ObserveInit map[string][2]uint64 `json:"observe_init,omitempty"` // "vb:replica" -> (uuid selector 0=current branch | explicit, persisted)
-	RMIntervalMs int                 `json:"rm_interval_ms,omitempty"`
-	GatedVB    int                   `json:"gated_vb,omitempty"` // C07: the vBucket whose replica reports are scripted (others are fully persisted)
-	Highs      map[int]uint64        `json:"highs,omitempty"`       // scripted vBucket high seqnos (synthetic, no items needed)
-	CollHighs  map[int]uint64        `json:"coll_highs,omitempty"`  // scripted high seqno of the configured collections per vBucket
-	Corrupt    []int                 `json:"corrupt,omitempty"`     // vBuckets whose stored checkpoint xattr is not valid JSON (couchbase back end)
+	HookDelayMs        map[string]int       `json:"hook_delay_ms,omitempty"`
+	RollbackMitigation bool                 `json:"rollback_mitigation,omitempty"`
+	HealthCheck        bool                 `json:"health_check,omitempty"`
+	HCTimeoutMs        int                  `json:"hc_timeout_ms,omitempty"`
+	Replicas           int                  `json:"replicas,omitempty"`
+	UnassignedReplicas map[int][]int        `json:"unassigned_replicas,omitempty"` // vb -> replica indexes that are -1 in the cluster map
+	ObserveInit        map[string][2]uint64 `json:"observe_init,omitempty"`        // "vb:replica" -> (uuid selector 0=current branch | explicit, persisted)
+	RMIntervalMs       int                  `json:"rm_interval_ms,omitempty"`
+	GatedVB            int                  `json:"gated_vb,omitempty"`   // C07: the vBucket whose replica reports are scripted (others are fully persisted)
+	Highs              map[int]uint64       `json:"highs,omitempty"`      // scripted vBucket high seqnos (synthetic, no items needed)
+	CollHighs          map[int]uint64       `json:"coll_highs,omitempty"` // scripted high seqno of the configured collections per vBucket
+	Corrupt            []int                `json:"corrupt,omitempty"`    // vBuckets whose stored checkpoint xattr is not valid JSON (couchbase back end)
 }
 
 // MetricScrape is one GET /metrics.
@@ -161,38 +163,38 @@ type SentItem struct {
 }
 
 type Trace struct {
-	Spec   *SessSpec
-	Env    *hx.Env
-	Log    []evlog.Rec
-	Events []*hx.Delivered
-	Tracks []*hx.Tracked
-	MD     *hx.MemMetadata
-	Segs   map[int][]*Seg
-	Items  map[int]map[uint64]cbsim.Item // full history per vb by seqno
-	StartErr string
-	CloseOK  bool
-	Notes    []string
-	FilePath string
+	Spec            *SessSpec
+	Env             *hx.Env
+	Log             []evlog.Rec
+	Events          []*hx.Delivered
+	Tracks          []*hx.Tracked
+	MD              *hx.MemMetadata
+	Segs            map[int][]*Seg
+	Items           map[int]map[uint64]cbsim.Item // full history per vb by seqno
+	StartErr        string
+	CloseOK         bool
+	Notes           []string
+	FilePath        string
 	BarrierTimeouts int
-	Cfg *config.Dcp
-	Checks []*StoreCheck
-	Post   *PostClose
+	Cfg             *config.Dcp
+	Checks          []*StoreCheck
+	Post            *PostClose
 	CloseHangStacks []string
-	Reads  []*Read
-	Metrics []*MetricScrape
-	APIPort int
-	readMu sync.Mutex
-	sess   *session
+	Reads           []*Read
+	Metrics         []*MetricScrape
+	APIPort         int
+	readMu          sync.Mutex
+	sess            *session
 }
 
 // PostClose is what was observed after Start() returned following a Close().
 type PostClose struct {
-	TCloseCall  int64
-	TStartRet   int64
-	Returned    bool
-	Store       map[int][4]uint64
-	RxAfter     []string // requests the simulated node received later than the grace period after Start() returned
-	OpenConns   int
+	TCloseCall   int64
+	TStartRet    int64
+	Returned     bool
+	Store        map[int][4]uint64
+	RxAfter      []string // requests the simulated node received later than the grace period after Start() returned
+	OpenConns    int
 	DeliverAfter int
 }
 
@@ -242,21 +244,21 @@ func toItem(s ItemSpec) cbsim.Item {
 }
 
 type session struct {
-	spec    *SessSpec
-	env     *hx.Env
-	cons    *hx.Consumer
-	md      *hx.MemMetadata
-	full    *hx.Full
-	vbLocks []sync.Mutex
-	pmu     sync.Mutex
-	pending []*hx.Delivered
-	acked   []*hx.Delivered
-	holdCh  chan struct{}
-	failSet map[int]bool
-	bgWG    sync.WaitGroup
-	failNext int32 // the next failNext saves of the mem back end are rejected (step "failnext")
-	tr      *Trace
-	rng     *rand.Rand
+	spec        *SessSpec
+	env         *hx.Env
+	cons        *hx.Consumer
+	md          *hx.MemMetadata
+	full        *hx.Full
+	vbLocks     []sync.Mutex
+	pmu         sync.Mutex
+	pending     []*hx.Delivered
+	acked       []*hx.Delivered
+	holdCh      chan struct{}
+	failSet     map[int]bool
+	bgWG        sync.WaitGroup
+	failNext    int32 // the next failNext saves of the mem back end are rejected (step "failnext")
+	tr          *Trace
+	rng         *rand.Rand
 	notifyCtr   int64
 	notifyWG    sync.WaitGroup
 	ehHolds     []chan struct{}
@@ -678,6 +680,42 @@ func RunSession(spec *SessSpec) *Trace {
 			}
 		}
 	}
+	if len(spec.StartSteps) > 0 {
+		prevWS := opts.WhileStarting
+		opts.WhileStarting = func() {
+			if prevWS != nil {
+				prevWS()
+			}
+			for _, st := range spec.StartSteps {
+				switch st.Op {
+				case "waithold":
+					hx.WaitFor(8*time.Second, func() bool { return env.Log.Count("sim.hold") >= st.N })
+				case "waitopen": // the vBucket's stream request was answered
+					vbw := st.VB
+					hx.WaitFor(8*time.Second, func() bool {
+						return len(env.Log.Filter(func(r evlog.Rec) bool {
+							return r.K == "sim.tx" && r.Op == cbsim.OpDcpStreamReq && r.VB == vbw && r.St == 0
+						})) > 0
+					})
+				case "end":
+					env.Sim.EndStreams(uint16(st.VB), st.St)
+				case "waitreopen":
+					vbw, want := st.VB, st.N
+					to := time.Duration(st.Ms) * time.Millisecond
+					if to == 0 {
+						to = 4 * time.Second
+					}
+					hx.WaitFor(to, func() bool {
+						return len(env.Log.Filter(func(r evlog.Rec) bool { return r.K == "sim.rx" && r.Op == cbsim.OpDcpStreamReq && r.VB == vbw })) >= want
+					})
+				case "releasereq":
+					close(reqHoldCh)
+				case "sleep":
+					time.Sleep(time.Duration(st.Ms) * time.Millisecond)
+				}
+			}
+		}
+	}
 	full, err := env.StartFull(cfg, opts)
 	if err != nil {
 		tr.StartErr = err.Error()
@@ -1084,9 +1122,13 @@ func RunSession(spec *SessSpec) *Trace {
 			s.pmu.Unlock()
 		case "waitrounds": // wait until N further complete observe rounds were answered for the vBucket
 			vbw, want := st.VB, st.N
-			base := env.Log.Filter(func(r evlog.Rec) bool { return r.K == "sim.tx" && r.Op == cbsim.OpObserveSeqno && r.VB == vbw && r.B == 0 })
+			base := env.Log.Filter(func(r evlog.Rec) bool {
+				return r.K == "sim.tx" && r.Op == cbsim.OpObserveSeqno && r.VB == vbw && r.B == 0
+			})
 			hx.WaitFor(8*time.Second, func() bool {
-				now := env.Log.Filter(func(r evlog.Rec) bool { return r.K == "sim.tx" && r.Op == cbsim.OpObserveSeqno && r.VB == vbw && r.B == 0 })
+				now := env.Log.Filter(func(r evlog.Rec) bool {
+					return r.K == "sim.tx" && r.Op == cbsim.OpObserveSeqno && r.VB == vbw && r.B == 0
+				})
 				return len(now)-len(base) >= want
 			})
 		case "persistbelow": // replicas report a persisted seqno below what the vBucket holds: newer events wait in rollback mitigation
